@@ -26,6 +26,20 @@ var c11errors = []string{
 	"MASTERDOWN Link with MASTER is down and replica-serve-stale-data is set to 'no'.",
 	"NOREPLICAS Not enough good replicas to write.",
 	"EXECABORT Transaction discarded because of previous errors.",
+	// texts that share a prefix with the errors the proxy itself acts on
+	"ERR invalid expire time in 'set' command",
+	"ERR invalid cursor",
+	"ERR invalid DB index",
+	"ERR syntax error",
+	"ERR no such key",
+	"ERR Client sent something unexpected",
+	"ERR AUTHENTICATION is not what this is about",
+	"NOPERM this user has no permissions to run the 'set' command",
+	"NOAUTHORITY custom module error",
+	"ERR",
+	"ERR value is not a valid float",
+	"NOTBUSY No scripts in execution right now.",
+	"UNKILLABLE Sorry the script already executed write commands against the dataset.",
 }
 
 func runC11(c *Check, rng *rand.Rand) {
@@ -55,7 +69,7 @@ func runC11(c *Check, rng *rand.Rand) {
 			cl.Send(raw)
 			ok := cl.WaitReplies(1, 5*time.Second)
 			c.Eval(1)
-			c.Distinct("single/" + cmd + "/" + e[:4])
+			c.Distinct("single/" + cmd + "/" + e[:minInt(len(e), 12)])
 			if !ok {
 				if !env.P.Alive() {
 					c.Violate(Violation{Class: "proxy-died", Shape: "single-key", Detail: env.P.PanicLine(), Witness: map[string]interface{}{"request": Q(raw), "backend_reply": Q(rep)}})
@@ -143,7 +157,7 @@ func runC11(c *Check, rng *rand.Rand) {
 		}
 		wit := map[string]interface{}{"request": Q(r.raw), "fragments": cse.f, "erroring_fragments_mask": maskStr(cse.mask, cse.f), "arrival_order": cse.perm, "error": e}
 		c.Eval(1)
-		c.Distinct(fmt.Sprintf("%s/%d/%b/%v/%s", cse.kind, cse.f, cse.mask, orderSig(cse.perm), e[:4]))
+		c.Distinct(fmt.Sprintf("%s/%d/%b/%v/%s", cse.kind, cse.f, cse.mask, orderSig(cse.perm), e[:minInt(len(e), 12)]))
 		switch {
 		case !env.P.Alive():
 			deaths[shape]++
